@@ -9,6 +9,8 @@ ASSUME BToCp(B2p64) = Cp("18446744073709551616")
 ASSUME BMul(BFromCp(Cp("18014398509481984")), BFromInt(1024)) = B2p64
 ASSUME BDivMod(BFromInt(1000), BFromInt(7)) = <<BFromInt(142), BFromInt(6)>>
 ASSUME BAnd(BFromInt(33261), BFromInt(4095)) = BFromInt(493)
+ASSUME \A c \in (1..1200) : FoldLower(FoldUpper(FoldLower(c))) = FoldLower(c)
+ASSUME FoldLower(1046) = 1078 /\ FoldLower(201) = 233 /\ FoldLower(916) = 948 /\ FoldLower(215) = 215 /\ FoldUpper(1078) = 1046
 FastVals == {0, 1, 9, 10, 99, 512, 1024, 86400, 999999, 99999999, 999999999, 1000000000, 1790000000, 1999999999}
 ASSUME \A x \in FastVals : \A y \in FastVals :
          /\ BAdd(BFromInt(x), BFromInt(y)) = BAddBig(BFromInt(x), BFromInt(y))
